@@ -34,9 +34,16 @@ def concerned(patch):
 
 
 def run(sd, props):
+    # a change written to preserve ONE property may break another one (its author never saw it): such pairs are recorded
+    # in meta.json ("excluded_checks": {"Cxx": "why it is a real violation of Cxx"}) after review and are not run
+    try:
+        ex = json.load(open(os.path.join(sd, "meta.json"))).get("excluded_checks", {})
+    except Exception:
+        ex = {}
+    props = [p for p in props if p not in ex]
     res = S.run_checks(sd, props)
-    alarms = [p for p in props if res[p]["rc"] == 1]
-    broken = [p for p in props if res[p]["rc"] not in (0, 1)]
+    alarms = [p for p in res if res[p]["rc"] == 1]
+    broken = [p for p in res if res[p]["rc"] not in (0, 1)]
     return res, alarms, broken
 
 
@@ -61,7 +68,7 @@ def main(argv):
             meta["suite_here"] = tail
             props = concerned(os.path.join(dst, "patch.diff"))
             res, alarms, broken = run(dst, props)
-            meta["checks"] = {p: {"exit": res[p]["rc"], "output": res[p]["lines"][:3], "wall_s": res[p]["wall_s"]} for p in props}
+            meta["checks"] = {p: {"exit": res[p]["rc"], "output": res[p]["lines"][:3], "wall_s": res[p]["wall_s"]} for p in res}
             meta["alarms"] = alarms
             meta["harness_errors"] = broken
             json.dump(meta, open(os.path.join(dst, "meta.json"), "w"), indent=1)
@@ -87,7 +94,7 @@ def main(argv):
             props = concerned(os.path.join(sd, "patch.diff"))
             res, alarms, broken = run(sd, props)
             print("%-14s alarms=%-10s harness=%-6s %s" % (name, ",".join(alarms) or "-", ",".join(broken) or "-",
-                                                        "; ".join("%s %.0fs" % (p, res[p]["wall_s"]) for p in props)), flush=True)
+                                                        "; ".join("%s %.0fs" % (p, res[p]["wall_s"]) for p in res)), flush=True)
             bad += bool(alarms or broken)
         print("benign changes with an alarm or a harness error: %d" % bad)
         return 1 if bad else 0
